@@ -11,6 +11,7 @@ import Oracle.Tokenizer
 import Oracle.Driver
 import Oracle.FSem
 import Oracle.Sem
+import Oracle.Unify
 import Oracle.Offside
 import Oracle.Resolve
 import Oracle.Decl
@@ -32,6 +33,7 @@ def handle (line : String) : String :=
     | "sem.progT" => toString (Oracle.SemStream.handle false payload)
     | "sem.lowerT" => toString (Oracle.SemStream.handleLower false payload)
     | "c16.resolve" => toString (Oracle.ResolveStream.handle payload)
+    | "c02.graph" => toString (Oracle.UnifyStream.handle payload)
     | "c06.block" => toString (Oracle.OffsideStream.handle payload)
     | "c03.union" => toString (Oracle.Decl.handle payload)
     | "c03.record" => toString (Oracle.Decl.handleRecord payload)
